@@ -373,3 +373,116 @@ func errStr(err error) string {
 	}
 	return err.Error()
 }
+
+// ---- files whose reported size says nothing about their content --------------------------------------
+
+// zeroSizeFs reports a size of 0 for every regular file (a backend which does not know sizes, like the kernel's
+// pseudo-files); contents are served normally.
+type zeroSizeFs struct{ afero.Fs }
+
+type zeroInfo struct{ os.FileInfo }
+
+func (z zeroInfo) Size() int64 {
+	if z.FileInfo.IsDir() {
+		return z.FileInfo.Size()
+	}
+	return 0
+}
+
+type zeroFile struct{ afero.File }
+
+func (f zeroFile) Stat() (os.FileInfo, error) {
+	fi, err := f.File.Stat()
+	if err != nil {
+		return fi, err
+	}
+	return zeroInfo{fi}, nil
+}
+
+func (z zeroSizeFs) Stat(name string) (os.FileInfo, error) {
+	fi, err := z.Fs.Stat(name)
+	if err != nil {
+		return fi, err
+	}
+	return zeroInfo{fi}, nil
+}
+func (z zeroSizeFs) Open(name string) (afero.File, error) {
+	f, err := z.Fs.Open(name)
+	if err != nil {
+		return nil, err
+	}
+	return zeroFile{f}, nil
+}
+func (z zeroSizeFs) OpenFile(name string, flag int, perm os.FileMode) (afero.File, error) {
+	f, err := z.Fs.OpenFile(name, flag, perm)
+	if err != nil {
+		return nil, err
+	}
+	return zeroFile{f}, nil
+}
+
+// runUnknownSizeFiles: "hashing a file returns the value of hashing its bytes, on every filesystem backend", for
+// kernel pseudo-files of the OS backend and for a backend which reports a size of 0 for everything.
+func (m *monitor) runUnknownSizeFiles() {
+	type target struct {
+		backend string
+		fs      filesystem.FS
+		path    string
+		bytes   []byte
+	}
+	var targets []target
+	osfs := filesystem.NewStandardFileSystem()
+	for _, p := range []string{"/proc/version", "/proc/filesystems", "/proc/sys/kernel/ostype"} {
+		b1, err1 := os.ReadFile(p)
+		b2, err2 := os.ReadFile(p)
+		st, err3 := os.Stat(p)
+		if err1 != nil || err2 != nil || err3 != nil || string(b1) != string(b2) || len(b1) == 0 || st.Size() != 0 {
+			continue // not there, not stable, or not a size-less file on this kernel
+		}
+		targets = append(targets, target{"os(kernel pseudo-file)", osfs, p, b1})
+	}
+	mem := afero.NewMemMapFs()
+	zfs := filesystem.NewVirtualFileSystem(zeroSizeFs{mem}, filesystem.StandardFS, filesystem.IdentityPathConverterFunc)
+	for i, n := range []int{1, 77, 4096, 100_001} {
+		b := m.bytesOf(contentSpec{Kind: "prng", Len: n, Idx: 9000 + i})
+		p := fmt.Sprintf("/unknown-size/f%d.bin", i)
+		_ = mem.MkdirAll("/unknown-size", 0o755)
+		if err := afero.WriteFile(mem, p, b, 0o644); err != nil {
+			continue
+		}
+		targets = append(targets, target{"backend reporting size 0", zfs, p, b})
+	}
+	for _, t := range targets {
+		for _, a := range algos {
+			want := a.Ref(t.bytes)
+			type res struct {
+				ep  string
+				got string
+				err error
+			}
+			var rs []res
+			g, err := t.fs.FileHash(a.Name, t.path)
+			rs = append(rs, res{"FS.FileHash", g, err})
+			if fh, e := filesystem.NewFileHash(a.Name); e == nil && fh != nil {
+				g, err = fh.CalculateFile(t.fs, t.path)
+				rs = append(rs, res{"IFileHash.CalculateFile", g, err})
+				g, err = fh.CalculateFileWithContext(context.Background(), t.fs, t.path)
+				rs = append(rs, res{"IFileHash.CalculateFileWithContext", g, err})
+			}
+			for _, x := range rs {
+				m.r.CaseN(fmt.Sprintf("unknown-size|%s|%s|%s|%s", t.backend, t.path, a.Name, x.ep), true, 1)
+				m.unknownSize.Add(1)
+				m.r.ObsSet("files_whose_reported_size_is_zero", t.backend+": "+t.path)
+				if x.err != nil {
+					m.r.Inconclusive("hashing an existing regular file returned an error: outside the property")
+					continue
+				}
+				if x.got != want {
+					m.r.Violation(vrun.Sig{"ep": "FileHash", "pre": "file whose reported size is 0", "effect": "wrong digest", "backend": t.backend},
+						fmt.Sprintf("%s %s(%s, %d bytes of content, reported size 0) = %s, reference of its bytes %s", a.Name, x.ep, t.path, len(t.bytes), x.got, want),
+						map[string]any{"backend": t.backend, "path": t.path, "algorithm": a.Name, "entry_point": x.ep, "content_length": len(t.bytes), "got": x.got, "want": want})
+				}
+			}
+		}
+	}
+}
